@@ -31,7 +31,7 @@ type burnEnv struct {
 }
 
 func newBurnEnv(s *Stream) *burnEnv {
-	genesisExtraCoins = sdk.NewCoins(sdk.NewInt64Coin("aaa", 100000), sdk.NewInt64Coin("zzz", 100000))
+	genesisExtraCoins = sdk.NewCoins(sdk.NewInt64Coin("aaa", 100000), sdk.NewCoin("zzz", hugeInt("1000000000000000000000000000000")))
 	defer func() { genesisExtraCoins = nil }()
 	accts := []*Acct{newAcct("A", []byte("burn-A")), newAcct("B", []byte("burn-B"))}
 	c, err := NewChain(memDB(), tmpHome(), accts, 100000, nil)
@@ -64,11 +64,20 @@ func (e *burnEnv) header() {
 	e.s.Emit(fmt.Sprintf("bank.genesis burn=%s module=%s denoms=%s bals=%s", hx(e.burn), hx(e.module), hxList(dl), strings.Join(parts, ",")), "-")
 }
 
-func (e *burnEnv) send(from, to sdk.AccAddress, d string, amt int64) {
-	op := fmt.Sprintf("bank.send %s %s %s %d", hx(from), hx(to), hxs(d), amt)
+func hugeInt(dec string) sdk.Int {
+	v, ok := sdk.NewIntFromString(dec)
+	if !ok {
+		panic("bad int " + dec)
+	}
+	return v
+}
+
+func (e *burnEnv) send(from, to sdk.AccAddress, d string, amts string) {
+	amt := hugeInt(amts)
+	op := fmt.Sprintf("bank.send %s %s %s %s", hx(from), hx(to), hxs(d), amts)
 	e.s.Emit(op, guard(func() string {
 		sub, write := e.c.DeliverCtx().CacheContext()
-		if err := e.c.App.BankKeeper.SendCoins(sub, from, to, sdk.NewCoins(sdk.NewInt64Coin(d, amt))); err != nil {
+		if err := e.c.App.BankKeeper.SendCoins(sub, from, to, sdk.NewCoins(sdk.NewCoin(d, amt))); err != nil {
 			return errAns(err)
 		}
 		write()
@@ -143,7 +152,11 @@ func burnHistory(s *Stream, rng *rand.Rand, steps int, allowVest bool) {
 	vested := false
 	for i := 0; i < steps; i++ {
 		d := burnDenoms[rng.Intn(3)]
-		amt := []int64{1, 1, 7, 100, 99999, 1000000}[rng.Intn(6)]
+		amt := []string{"1", "1", "7", "100", "99999", "1000000"}[rng.Intn(6)]
+		if d == "zzz" && rng.Intn(2) == 0 {
+			// huge amounts: around 2^63 (int64 boundary), 2^64, 18-decimals vouchers
+			amt = []string{"9223372036854775807", "9223372036854775808", "18446744073709551616", "10000000000000000000", "123456789012345678901234567"}[rng.Intn(5)]
+		}
 		switch r := rng.Intn(12); {
 		case r < 5:
 			from := []*Acct{A, B}[rng.Intn(2)]
